@@ -129,3 +129,44 @@ def safe_pose(pose, K):
         if faces_hash_ok(q(K)):
             return q
     return pose
+
+
+ID3 = ((1, 0, 0), (0, 1, 0), (0, 0, 1))
+MOVED_V = ((1, 2, -1), (0, 0, 3), (-2, 1, 0))
+
+
+def eval_moved_inter(prop, fam, a, b):
+    """intersect, then repeatedly move one operand *in place* and intersect the same two objects again;
+    every answer is compared with the exact intersection of the translated operands."""
+    e0, cell, skip = model_inter(a, b)
+    if skip:
+        return skip, []
+    la, lb = lib.to_lib(a), lib.to_lib(b)
+    cellname = 'moved|%s,%s' % (a[0], b[0])
+    r = lib.call(intersection, la, lb)
+    ok, why = lib.matches(r, e0)
+    if not ok:
+        return cellname, []          # the static scene is the other families' business
+    ta, tb = a, b
+    for i, v in enumerate(MOVED_V):
+        which = i % 2
+        obj = (la, lb)[which]
+        if obj is None or not hasattr(obj, 'move'):
+            continue
+        m = lib.call(obj.move, lib.V(v))
+        if isinstance(m, lib.Raised):
+            return cellname, [Viol('%s|moved|%s,%s|move-raises:%s' % (prop, a[0], b[0], m.cls), core.enc((a, b)), 'moved operand', repr(m), '')]
+        if which == 0:
+            ta = X.xform(ta, ID3, 1, v)
+        else:
+            tb = X.xform(tb, ID3, 1, v)
+        e, _, skip = model_inter(ta, tb)
+        if skip:
+            continue
+        for form, th in (('ab', lambda: intersection(la, lb)), ('ba', lambda: intersection(lb, la))):
+            r = lib.call(th)
+            ok, why = lib.matches(r, e)
+            if not ok:
+                return cellname, [Viol('%s|moved|%s|%s,%s|%s-after-in-place-move' % (prop, form, a[0], b[0], why), core.enc((a, b)), core.enc(e), lib.describe(r),
+                                       'intersection of the same two objects after moving operand %d in place (step %d, by %r)' % (which, i, v))]
+    return cellname, []
